@@ -23,6 +23,17 @@ func gosymRemoteGet(kc *keepclient.KeepClient, locator string) (io.ReadCloser, i
 	return nil, 0, "", keepclient.BlockNotFound
 }
 
+var gosymDiscoveryTokens []string // credentials given to the client that does service discovery at the remote
+
+// engine-level stubs for arvadosclient.New / keepclient.MakeKeepClient (TLS setup and network discovery)
+func gosymArvNew(c *arvados.Client) (*arvadosclient.ArvadosClient, error) {
+	return &arvadosclient.ArvadosClient{ApiServer: c.APIHost, ApiToken: c.AuthToken, ApiInsecure: c.Insecure}, nil
+}
+func gosymMakeKC(arv *arvadosclient.ArvadosClient) (*keepclient.KeepClient, error) {
+	gosymDiscoveryTokens = append(gosymDiscoveryTokens, arv.ApiToken)
+	return &keepclient.KeepClient{Arvados: arv}, nil
+}
+
 func GosymH_C19_keepstore() {
 	remoteID := gosym_String("remote", 5, "set:az09")
 	uuid := gosym_String("uuid", 5, "set:az09") + "-gj3su-000000000000000"
@@ -42,6 +53,11 @@ func GosymH_C19_keepstore() {
 	cluster.RemoteClusters = map[string]arvados.RemoteCluster{remoteID: {Host: "remote.example"}}
 	shared := &keepclient.KeepClient{Arvados: &arvadosclient.ArvadosClient{ApiToken: "xxx"}}
 	rp := &remoteProxy{clients: map[string]*keepclient.KeepClient{remoteID: shared}}
+	cold := gosym_Fork("first-fetch-for-this-remote")
+	if cold {
+		rp = &remoteProxy{} // no client cached yet: one is created, with service discovery at the remote
+	}
+	gosymDiscoveryTokens = nil
 
 	hash := "acbd18db4cc2f85cedef654fccc4a4d8"
 	path := "/" + hash + "+3+R" + remoteID + "-" + "0123456789012345678901234567890123456789@5f612ee6"
@@ -52,6 +68,16 @@ func GosymH_C19_keepstore() {
 	rp.Get(context.Background(), resp, req, cluster, &RRVolumeManager{})
 
 	gosym_Assert(shared.Arvados.ApiToken == "xxx", "shared-client-never-carries-a-user-token")
+	for _, dt := range gosymDiscoveryTokens {
+		// whatever the discovery client sends, it is not the caller's token (nor anything containing it)
+		gosym_Assert(dt != token, "service-discovery-at-the-remote-does-not-carry-the-caller's-token")
+		gosym_Reach("discovery")
+	}
+	if cold {
+		if c := rp.clients[remoteID]; c != nil {
+			gosym_Assert(c.Arvados.ApiToken != token, "cached-client-never-carries-a-user-token")
+		}
+	}
 	salted := "v2/" + uuid + "/" + gosym_HMACSHA1Hex([]byte(secret), []byte(remoteID))
 	for i := 0; i+1 < len(gosymRemoteCalls); i += 2 {
 		sent := gosymRemoteCalls[i]
